@@ -1,5 +1,6 @@
 //! cxmon: op interpreter that drives the real cryptoxide API from case files and logs every result.
 //! It contains no expected values and no oracle.
+#![cfg(feature = "full")]
 pub mod codec;
 pub mod hashes;
 pub mod streams;
@@ -52,7 +53,7 @@ pub fn run_line(line: &str) -> Vec<String> {
         "hkdf_extract" | "hkdf_expand" | "pbkdf2" | "scrypt" | "scrypt_params" | "argon2" | "argon2b" | "argon2_params" => {
             kdfs::run(f[0], args)
         }
-        "bulk" | "x25519" | "x25519_base" | "x_dh" | "x_base" | "x25519_iter" | "x_try" | "ed_keypair" | "ed_sign" | "ed_sign_ext"
+        "bulk" | "x25519" | "x25519_base" | "x_dh" | "x_dhc" | "x_base" | "x25519_iter" | "x_try" | "ed_keypair" | "ed_sign" | "ed_sign_ext"
         | "ed_ext_pub" | "ed_exchange" | "ed_verify" | "fe" | "sc_reduce" | "sc_canon" | "sc_rt" | "ge_base" | "ge_dsm"
         | "ge_chain" | "ge_decode" | "ge_table" | "ge_select" => curve::run(f[0], args),
         "ct_u8_table" | "ct_u64" | "ct_arr" | "ct_slice" | "ct_u64arr" | "ct_u64slice" | "choice" | "ctopt" | "swap64"
